@@ -183,6 +183,7 @@ type readerModel struct {
 	advance int64  // how far ip moves
 	ok      bool
 	why     string
+	narrow  bool // the high byte is shifted in 8-bit arithmetic
 }
 
 // readerOf analyses a body that reads code[ipExpr] and code[ipExpr+1], combines them and
@@ -273,6 +274,21 @@ func readerOf(info *types.Info, body *ast.BlockStmt, ipIs func(ast.Expr) bool) r
 			}
 			lk, ok1 := which(lo)
 			hk, ok2 := which(hi)
+			// the shifted operand must be at least 16 bits wide: a byte shifted by 8 is 0
+			wide := false
+			if t := info.TypeOf(hi); t != nil {
+				if b, ok := t.Underlying().(*types.Basic); ok {
+					switch b.Kind() {
+					case types.Uint16, types.Int16, types.Uint32, types.Int32, types.Uint64, types.Int64, types.Uint, types.Int, types.UntypedInt:
+						wide = true
+					}
+				}
+			}
+			if ok1 && ok2 && !wide {
+				rm.order = ""
+				rm.narrow = true
+				return true
+			}
 			if ok1 && ok2 {
 				switch {
 				case lk == 0 && hk == 1:
@@ -285,6 +301,8 @@ func readerOf(info *types.Info, body *ast.BlockStmt, ipIs func(ast.Expr) bool) r
 		return true
 	})
 	switch {
+	case rm.narrow:
+		rm.why = "the high operand byte is shifted in 8-bit arithmetic (`b<<8` on a byte is 0): the reader drops the high byte of every operand"
 	case rm.order == "":
 		rm.why = "the way the two operand bytes are combined is not recognised"
 	case rm.advance < 0:
